@@ -284,6 +284,11 @@ func dynamicIntrinsic(fr *frame, fn *ssa.Function, name string, args []value) (v
 		if (path == "github.com/gogo/protobuf/proto" || path == "github.com/golang/protobuf/proto") && strings.HasPrefix(fn.Name(), "Register") {
 			return nil, true // protobuf registries are not consulted by the code under analysis
 		}
+		if path == "github.com/ethereum/go-ethereum/metrics" && strings.HasPrefix(fn.Name(), "NewRegistered") {
+			// metrics are disabled (metrics.Enabled == false): the registered
+			// meter is never used by the code under analysis
+			return zero(fn.Signature.Results().At(0).Type()), true
+		}
 	}
 	return nil, false
 }
